@@ -117,6 +117,9 @@ func scanLabels(p *symbolScanner) scanStateFn {
 		}
 		p.labelBuf = append(p.labelBuf, p.nextToken.val)
 		return p.consume(scanLabels)
+	case tokColon:
+		// a colon after a label does not end the label list
+		fallthrough
 	case tokComment:
 		fallthrough
 	case tokNewline:
